@@ -15,7 +15,7 @@ CHECKS = {
  'C15': dict(level='model_checking', technique='symbolic execution (z3) of every converter pair on one symbolic value per domain; two-copy queries for injectivity and card order',
              text='Complete finite domains covered symbolically: each feasible path of str/int/name conversions in both directions is one unsat query for the identity; injectivity and order-vs-index are two-copy queries over the same symbolic runs.',
              note='Trusted: interpreter (counterexamples replayed on CPython), z3, enum members identified by integer value.', ref='§4 C15'),
- 'C01': dict(level='model_checking', technique='symbolic execution (z3) of BiddingPhase.take_bid: one inductive step from an arbitrary invariant state (history as z3 Array of symbolic length) + BMC of K symbolic calls from the real constructor against an explicit-history oracle',
+ 'C01': dict(level='model_checking', technique='symbolic execution (z3) of BiddingPhase.take_bid: one inductive step from an arbitrary invariant state (history as z3 Array of symbolic length) + BMC of K symbolic calls from the real constructor against an explicit-history oracle + two auctions side by side (non-interference)',
              text='Inductive step over all states satisfying the printed invariant (auctions of any length) and all 38 calls: accepted iff legal, 38-slot vector = legal set, rejected call leaves every field identical; base case from the real constructor; BMC cross-checks the summary-state reading of legality against the true history up to K calls. Counterexamples to induction are turned into call sequences from the dealer and replayed on the real class.',
              note='Trusted: interpreter (replay-validated), z3, the reference legality rules in harness/auction.py and replay/r_auction.py; numpy vector modelled as 38 terms.', ref='§4 C01'),
  'C02': dict(level='model_checking', technique='symbolic execution (z3): inductive step of take_bid (turn, history append, per-seat lists, exact end) + arbitrary ended state refuses every call unchanged + BMC from the constructor with explicit per-prefix oracle',
@@ -24,10 +24,10 @@ CHECKS = {
  'C03': dict(level='model_checking', technique='symbolic execution (z3) of take_bid + contract(): inductive step with ghost first-to-name table, BMC (K>=6) against an oracle that scans the explicit history for the true declarer',
              text='At FINISHED the interpreted contract() equals last bid, doubling status, board vulnerability and the first-to-name entry; before the end it is None; the table, flags and last bid follow the reference step from any invariant state; BMC covers both-partners/both-sides-named and superseded-double auctions up to K calls against the explicit history.',
              note='Trusted: as C01.', ref='§4 C03'),
- 'C04': dict(level='model_checking', technique='symbolic execution (z3) of PlayingPhaseWithHands.play_card_by_player: inductive step from an arbitrary invariant state with hands as 52-bit sets; calc_highest summarised; BMC of the first tricks; exact history synthesis for counterexamples',
+ 'C04': dict(level='model_checking', technique='symbolic execution (z3) of PlayingPhaseWithHands.play_card_by_player: inductive step from an arbitrary invariant state with hands as 52-bit sets; calc_highest summarised; BMC of the first tricks; exact history synthesis for counterexamples; two boards side by side (non-interference)',
              text='One play from any invariant state (any trick 1..13, 0..3 cards on the table, any contract, any hands, any card/seat): turn passes left inside a trick; on the fourth card the reference winner leads, exactly its side is credited, trick number advances, history gains (actual leader, four cards in order); constructor base case; has_done lemma; BMC from the real constructor over the first plays. Counterexamples are turned into a deal plus plays (earlier tricks synthesised by z3) and replayed.',
              note='Trusted: interpreter (replay-validated), z3, the reference trick-winner rule; Set[Card] modelled as 52 Booleans + maintained size term (over-approximation).', ref='§4 C04'),
- 'C05': dict(level='model_checking', technique='symbolic execution (z3): same inductive step with acceptance/refusal/conservation assertions on bit-sets; observer variant as product step; BMC partition check against the dealt hands',
+ 'C05': dict(level='model_checking', technique='symbolic execution (z3): same inductive step with acceptance/refusal/conservation assertions on bit-sets; observer variant as product step; pre-states include the finished board (all 52 cards played); BMC partition check against the dealt hands; two boards side by side',
              text='Accepted iff seat on turn and card in that hand; refusal is ValueError and leaves all 5x52 bits, table, counts, history identical; accepted play moves exactly that bit from the hand to the played set; BMC: after every play hands and played cards partition the symbolic deal; single-seat observer: own/dummy plays checked against the known hand, refused plays change nothing.',
              note='Trusted: as C04.', ref='§4 C05'),
  'C06': dict(level='model_checking', technique='symbolic execution (z3) of available_cards and its wrappers on an arbitrary 52-bit hand and symbolic led card; example player with random.choice as arbitrary element',
@@ -36,7 +36,7 @@ CHECKS = {
  'C11': dict(level='model_checking', technique='symbolic execution (z3): product inductive step of PlayingPhaseWithHands and ObservedPlayingPhase on the same symbolic play from related states (all four observer seats); the bundled network clients\' local replicas of recorded sessions compared with the table manager\'s log',
              text='(a) full-information game and single-seat observer, related pre-states, same symbolic (card, seat): whenever the full game accepts, the observer accepts and both agree again on contract, declarer, turn, trick number, leader, table, history, counts, own hand and dummy view (any trick incl. 13, exact history synthesis for counterexamples). (b),(c) every bundled client of the recorded sessions completes, and its local auction and observer of every board equal the log (contract, declarer, calls, trick leaders and cards, counts); all schedules of those sessions complete by C09.',
              note='Network-client clause bounded to the recorded sessions and bundled policies. Trusted: as C04.', ref='§4 C11'),
- 'C14': dict(level='model_checking', technique='symbolic execution (z3) of every deal encoder/decoder pair: 4x52-bit symbolic deals for binary/numpy/JSON; per-suit-shape explicit hands with symbolic ranks through the real PBN string builder and regex parser; deal line with codec contract; dealer with shuffle = arbitrary bijection',
+ 'C14': dict(level='model_checking', technique='symbolic execution (z3) of every deal encoder/decoder pair: 4x52-bit symbolic deals for binary/numpy/JSON; per-suit-shape explicit hands with symbolic ranks through the real PBN string builder and regex parser; deal line with codec contract, written twice from one object built by the real constructor; decode freshness (two decodes are independent sets); dealer with shuffle = arbitrary bijection',
              text='decode(encode(deal)) == deal and canonical form for all deals incl. partial ones (one query over 208 Booleans) for the tuple, numpy and JSON encodings; the PBN hand codec is executed per suit shape with symbolic ranks (characters symbolic) through the real regular expression; the deal line for every first seat and every present/empty pattern under the codec contract; the random dealer for every permutation.',
              note='Trusted: interpreter, z3, regex model (sre semantics, differential-tested), numpy model; quick tier covers 48 of the 560 suit shapes, thorough all.', ref='§4 C14'),
  'C09': dict(level='model_checking', engine='po', technique='SMT partial-order encoding (z3) of the recorded synchronisation traces of the real Server/PlayerThread/Client threads: all interleavings, deadlock query, completion and seeded-bug twins; forced-schedule replay on the real threads',
@@ -51,7 +51,7 @@ CHECKS = {
  'C12': dict(level='model_checking', replay_py='python3-vt', technique='symbolic execution (z3) of JsonLogWriter -> (json layer stubbed by its contract, framing parsed by the real json) -> published schema -> JsonParser on a symbolic record inside lists of 0..3 records; field-and-type comparison',
              text='Every feasible path of the real writer and the real parser over a fully symbolic record (seats, vulnerability, contract incl. passed out and all doubling states, 52-bit deal, auction, 0/1/2/13 tricks, scores, names with unconstrained code points, optional dda) at every position of lists of up to 3 records: the text is one JSON document, validates against the schema read from the repository, and every BoardLog/BoardSetting field equals what was written with the library\'s value types.',
              note='Assumes json.loads(json.dumps(d)) == d; call/card/contract text codecs are replaced by opaque tokens (their inverses are C15). Replay runs the real writer, real json, jsonschema and the real parser.', ref='§4 C12'),
- 'C13': dict(level='model_checking', technique='symbolic execution (z3) of Server.run from its first line with stubbed environment, symbolic boards and a symbolic abort point (board, phase) x exception kind; captured file parsed by the real json module',
+ 'C13': dict(level='model_checking', technique='symbolic execution (z3) of Server.run from its first line with stubbed environment, symbolic boards and a symbolic abort point (board, phase) x every exception class the phases can end with (7); captured file parsed by the real json module',
              text='Every path of the real run() (its with/try structure and the real JsonLogWriter interpreted) over 1..3 symbolic boards where the auction or the play of board k raises Exception or KeyboardInterrupt: the output file is closed, is one JSON document and holds exactly boards 1..k-1, each schema-valid. Replay runs the real server with four bundled clients over in-memory sockets, injects the exception and parses the file from disk.',
              note='The position inside the auction/play is not visible to run(); that an offending action surfaces as an exception of bidding_phase/playing_phase is by reading (they raise before touching the writer).', ref='§4 C13'),
  'C18': dict(level='model_checking', technique='symbolic execution (z3) of PbnWriter.write_board_result followed by the real PbnParser (sre-semantics regex model) on the written text with symbolic characters; one symbolic board result inside sequences of 1..3',
